@@ -44,7 +44,7 @@ TWIN_CLASS = 2       # index of c15.Twin in family N
 CASE_TIMEOUT_S = 2.0   # CPU-time guard per case (ITIMER_VIRTUAL: immune to machine load; a non-terminating write is CPU-bound)
 VIEW_OPS_LIST = ["AssignRev", "AssignIter", "AssignChain", "AssignFilter"]
 VIEW_OPS_SET = ["AssignIter", "AssignChain", "AssignFilter"]
-LIST_OPS = VIEW_OPS_LIST + ["IAugAlias", "Assign", "AssignSelf", "IAug", "Append", "Extend", "ExtendGen", "ExtendSelf", "Insert", "SetItem", "SetSlice", "SetSliceGen"]
+LIST_OPS = VIEW_OPS_LIST + ["IAugAlias", "SliceRev", "SliceFilter", "Assign", "AssignSelf", "IAug", "Append", "Extend", "ExtendGen", "ExtendSelf", "Insert", "SetItem", "SetSlice", "SetSliceGen"]
 SET_OPS = VIEW_OPS_SET + ["IAugAlias", "Assign", "AssignList", "AssignSelf", "IAug", "Add", "Update", "Update2"]
 
 
@@ -193,6 +193,13 @@ def run_impl(descr) -> Dict[str, Any]:
             elif k == "AssignFilter":
                 drop = elems[args[0]]
                 setattr(owner, name, (v for v in getattr(owner, name) if v is not drop))
+            elif k == "SliceRev":              # the slice value is a lazy view over the field itself
+                cur = getattr(owner, name)
+                cur[args[0]:args[1]] = reversed(cur)
+            elif k == "SliceFilter":
+                cur = getattr(owner, name)
+                drop = elems[args[2]]
+                cur[args[0]:args[1]] = (v for v in cur if v is not drop)
             elif k == "Add":
                 getattr(owner, name).add(elems[args[0]])
             elif k == "Update":
@@ -292,6 +299,8 @@ def run_churn(descr) -> Dict[str, Any]:
             noinv.append(sum(1 for e in cur if not any(m is owner for m in getattr(e, inv_name))))
         del fresh, cur, rels
         gc.collect()
+        if descr.get("sweep"):                 # dead nodes are removed: their node indices are reused by the next symbols
+            SymbolGraph().remove_dead_instances()
     return {"sizes": sizes, "unrecorded": unrec, "no_inverse": noinv, "ids_reused": reused}
 
 
@@ -433,6 +442,13 @@ def run_quirk(descr) -> Dict[str, Any]:
             full.items.append(QItem("o1"))
             owner.teams.append(full)
             owner.teams.append(QTeam("empty"))
+        elif which == "extend_lazy":            # xs.extend(v for v in cands if v not in xs), the candidate twice
+            fam = c15.families()["U"]
+            Company = fam.classes[0]
+            owner, name = Company("owner"), "sub_organization_of"
+            a = Company("a")
+            owner.sub_organization_of.extend(v for v in [a, a] if not any(v is w for w in owner.sub_organization_of))
+            return {"field": [x.name for x in owner.sub_organization_of], "recorded": ["a"], "exc": None}
         elif which in ("alias_iadd", "alias_ior"):
             fam = c15.families()["U"]
             Company, Person = fam.classes[0], fam.classes[1]
@@ -586,6 +602,10 @@ def op_term(op) -> str:
         return f"SetItem ({args[0]})%Z {args[1]}"
     if k == "ExtendSelf":
         return "ExtendSelf"
+    if k in ("SliceRev", "SliceFilter"):         # x.f[:] is x.f[0:len]: any upper bound beyond the length is clamped
+        lo, hi = (0, 1000000) if args[0] is None else (args[0], args[1])
+        v = "VRev" if k == "SliceRev" else f"(VFilterOut {args[2]})"
+        return f"SetSliceView ({lo})%Z ({hi})%Z {v}"
     if k == "AssignRev":
         return "AssignView VRev"
     if k == "AssignIter":
@@ -652,6 +672,10 @@ def gen_case(rng: core.Rng, scn: str) -> dict:
             ops.append(["Append", x])          # keep the lists small: at most two doublings per history
         elif k in ("AssignSelf", "ExtendSelf", "AssignRev", "AssignIter"):
             ops.append([k])
+        elif k == "SliceRev":
+            ops.append([k] + rng.choice([[None, None], [rng.randint(-4, 5), rng.randint(-4, 5)]]))
+        elif k == "SliceFilter":
+            ops.append([k] + rng.choice([[None, None], [rng.randint(-4, 5), rng.randint(-4, 5)]]) + [x])
         elif k == "AssignChain":
             ops.append([k, vs])
         elif k == "AssignFilter":
@@ -673,11 +697,11 @@ def gen_cases(tier: str, seed: int) -> List[dict]:
     scns = ["U-list", "U-set", "N-list", "N-set", "U-list", "U-set", "N-list", "N-set", "Q-items", "Q-plains", "Q-teams"]
     out = [gen_case(rng, scns[i % len(scns)]) for i in range(n)]
     # element churn: fresh elements each turn, the old ones die and their addresses are reused
-    for i in range(6 if tier == "quick" else 40):
+    for i in range(8 if tier == "quick" else 40):
         scn = ["U-list", "U-set", "N-list"][i % 3]
         hows = ["assign", "clear_add"] + (["setitem"] if scn != "U-set" else [])
         rng.shuffle(hows)
-        out.append({"kind": "churn", "scn": scn, "turns": 40, "how": hows, "salt": rng.randint(0, 2)})
+        out.append({"kind": "churn", "scn": scn, "turns": 40, "how": hows, "salt": rng.randint(0, 2), "sweep": i % 2 == 0})
     # writes on a transitive field of the first symbol of a fresh graph, with relations already coming in and going out
     for i in range(40 if tier == "quick" else 400):
         pre = []
@@ -730,10 +754,11 @@ def run(tier: str, seed: int, replay=None) -> int:
         "harness/c16.py (+ the schema extraction of harness/c15.py): case builders through the public API including the genuine `o.f += v` / `o.f |= v` statements, canonicaliser",
         "CPython list/set builtins (list.__iadd__, set.__ior__, list.insert, list.__setitem__) as described by Onto/ContainerSpec.v",
     ]
-    rep.trusted.append("source pins pins/onto.json (pin set pins/sets/onto.json): the normalised source of the 61 methods the hand models Onto/Closure.v and Onto/Container.v mirror is compared on every run; an edit reopens the correspondence obligation")
+    rep.trusted.append("source pins pins/onto.json (pin set pins/sets/onto.json): the normalised source of the 64 methods the hand models Onto/Closure.v and Onto/Container.v mirror is compared on every run; an edit reopens the correspondence obligation")
     rep.assume = [
         "the field is written by its owner with fresh arguments (lists, sets, generators) or with itself for assignment / += / |=; "
         "the generated histories write fields whose inferences go to OTHER fields (inverse, super-property); item assignment on a transitive field (inference writes back into the written list; C16-i, fixed) is replayed from its witnesses against the model setitem_then_infer",
+        "extend / += are given materialised iterables or generators that do not read the field (a lazy iterable reading the field is evaluated against the old contents because extend copies first: C16-o, refuted)",
         "reading a managed field with == is not modelled; K_container_eq (C16-h) is replayed from its witness",
         "a shallow copy of the owner shares the container (as plain Python does): writes through either owner's field must be recorded for that owner; plain assignment through the clone (C16-j, fixed e598545) is replayed as a regression witness and generated; the small model cstep is compared exactly",
         "elements of SET-valued fields are pairwise different under == (Python's own set semantics go by ==, the symbol graph by identity); twins are generated for list fields only",
@@ -742,7 +767,7 @@ def run(tier: str, seed: int, replay=None) -> int:
     ]
     rep.rule = ("random histories of 1-7 operations (assignment of a fresh list/set, self-assignment, += / |=, append, extend with a list, a generator or the field itself, "
                 "insert, item assignment and slice assignment (list or generator value) with indices in -4..5, add, update with 1 or 0-3 iterables) from random initial contents given to the constructor, "
-                "on Person.member_of, Company.members, Node.a, Node.b and on fields of classes with user protocols (an owner that is falsy while empty and iterable, falsy elements, elements of an eq=True dataclass without hash, elements that define __iter__ / __len__); += / |= also through another reference to the container; assignment of LAZY views over the field itself (reversed, iter, chain, filtering generator); transitive families (writes on Org.part_of (transitive, no inverse) of the first symbol of a fresh graph that already has incoming and outgoing relations; graph = C15 closure of all facts); churn families (40 turns of fresh elements whose predecessors die, so addresses are reused) and clone families (writes through a copy.copy of the owner); elements drawn with repetition from 4 objects (in the Node.a scenario objects 2 and 3 are distinct Twin objects that compare and hash equal; recording is checked per object identity); "
+                "on Person.member_of, Company.members, Node.a, Node.b and on fields of classes with user protocols (an owner that is falsy while empty and iterable, falsy elements, elements of an eq=True dataclass without hash, elements that define __iter__ / __len__); += / |= also through another reference to the container; assignment of LAZY views over the field itself (reversed, iter, chain, filtering generator); transitive families (writes on Org.part_of (transitive, no inverse) of the first symbol of a fresh graph that already has incoming and outgoing relations; graph = C15 closure of all facts); churn families (40 turns of fresh elements whose predecessors die, so addresses are reused; in half of them the dead nodes are swept each turn, so node indices are reused too) and clone families (writes through a copy.copy of the owner); elements drawn with repetition from 4 objects (in the Node.a scenario objects 2 and 3 are distinct Twin objects that compare and hash equal; recording is checked per object identity); "
                 "non-trivial = at least one operation changes the contents; distinct = distinct (scenario, initial contents, history)")
     ok_spec, log = core.coq_make(["Base/Sx.vo", "Onto/ContainerSpec.vo", "Onto/ClosureSpec.vo"])
     rep.oblige("build:spec", ok_spec, "" if ok_spec else core.first_error(log))
@@ -803,6 +828,8 @@ def run(tier: str, seed: int, replay=None) -> int:
         if d.get("kind") == "quirk":
             rep.count(json.dumps(d), True)
             unrec = sorted(set(im["field"]) - set(im["recorded"]))
+            if d["which"] == "extend_lazy" and im["field"] != ["a"]:
+                problems.append(f"xs.extend(v for v in [a, a] if v not in xs) leaves {im['field']}; a plain list consumes the generator item by item: ['a']")
             if im["exc"]:
                 problems.append(f"the write raises {im['exc']}")
             if unrec or set(im["recorded"]) - set(im["field"]):
